@@ -38,11 +38,12 @@ Pairs == FoldLeft(LAMBDA acc, i : IF Len(acc) < Want /\ Sorted[i][1] = Sorted[i 
                   <<>>, [i \in 1..(Len(Sorted) - 1) |-> i])
 
 SearchInit == idlen = SIdLen /\ idhash = TRUE /\ group = "search" /\ verdict = <<"todo">>
-SearchNext == /\ verdict = <<"todo">>
+SearchNext == /\ group = "search"
+              /\ group' = "found"
               /\ verdict' = Pairs
               /\ PrintT("COLLIDE " \o ToJson([pairs |-> verdict', variants |-> Cardinality(Variants), idlen |-> SIdLen]))
-              /\ UNCHANGED <<idlen, idhash, group>>
+              /\ UNCHANGED <<idlen, idhash>>
 SearchSpec == SearchInit /\ [][SearchNext]_vars
 (* every exported pair satisfies the collision condition derived in CNames *)
-PairsCollide == (verdict # <<"todo">>) => \A i \in 1..Len(verdict) : verdict[i].a # verdict[i].b
+PairsCollide == (group = "found") => \A i \in 1..Len(verdict) : verdict[i].a # verdict[i].b
 =============================================================================
